@@ -2,16 +2,20 @@
   C01 - Compiled generators yield exactly the source's coroutine sequence.
 
   Full statement (`C01_full`): for every generator body `p` of the mini-Go grammar, every interpretation
-  `ρ` of its atoms (= every argument steering the branches), every loop budget `N`:
-    compile p = ok t  →  tgtSem ρ N (optimize t) = srcSem ρ N p          (as resumption trees)
-  The full statement is FALSE of the tree under verification (known findings D6, D7: `C01_cex_*` in
-  GoCo/Props/C01cex.lean, replayed on the real code by the check).
-  Proved so far: pass0 preserves the semantics of all statements (`C01_pass0`), eta-reduction preserves
-  it (`C07_eta_sound`); the pass2/pass3 theorem `compile_correct_partial` is under construction
-  (GoCo/Proofs/Pass2.lean).
+  `ρ` of its atoms (= every argument steering the branches), every store and every loop budget `N`:
+      compile p = ok [return Start(e)]  →  running the constructed `e` = the source body as a coroutine
+  as resumption trees: same yields in the same order and number, same effects between them, same end,
+  and for infinite generators agreement on every finite prefix (equality at every `N`).
+
+  * `C01_partial` (= `compile_correct_partial`): PROVED for every body inside `InFragment` - simple
+    statements, blocks, if / else-if chains, three-clause / condition-only / infinite for loops with
+    yields anywhere (initialiser, body, post), break, continue, return - all nestings, all `ρ`, `N`, stores.
+    Outside the proved fragment: switch, fallthrough (covered by correspondences K4/K6 only).
+  * `C01_full` is FALSE of the tree under verification: `C01_cex_continue_yielding_post` (finding D6) is a
+    kernel-checked counterexample, replayed on the real compiler by the check.  Finding D7 (break inside
+    a yielding switch) is outside the proved fragment and is demonstrated by the replay only.
 -/
-import GoCo.Proofs.Pass0
-import GoCo.Compile.Guard
+import GoCo.Proofs.CompileCorrect
 import GoCo.Compile.VM
 set_option autoImplicit false
 
@@ -19,16 +23,86 @@ namespace GoCo.C01
 open GoCo GoCo.MG
 variable {σ P : Type}
 
+/-- running a compiled body: construct the iterator (`evalS` of Start's argument), then run it -/
+def runCompiled (ρ : Interp σ P) (N : Nat) (e : SExp) (st : σ) : MG.Res Sig σ P :=
+  match evalS ρ N e st with
+  | (.error x, st') => .panic x st'
+  | (.ok run, st') => run st'
+
 /-- the property at full strength -/
 def C01_full : Prop :=
-  ∀ (σ P : Type) (ρ : Interp σ P) (N : Nat) (q : Quirks) (p t : Stmts), compile q p = .ok t →
+  ∀ (σ P : Type) (ρ : Interp σ P) (N : Nat) (p t : Stmts), compile currentQuirks p = .ok t →
     ∀ e, t = .cons (.rete (.start e)) .nil →
-      ∀ st, (match evalS ρ N e st with
-              | (.error x, st') => (.panic x st' : MG.Res Sig σ P)
-              | (.ok run, st') => run st')
-            = (srcSem ρ N p st).bind closeThunk
+      ∀ st, runCompiled ρ N e st = closed (srcSem ρ N p st)
+
+/-- **proved**: the full statement under the guard `InFragment` -/
+theorem C01_partial (ρ : Interp σ P) (N : Nat) (q : Quirks) (p t : Stmts) (h : compile q p = .ok t)
+    (hg : InFragment p = true) :
+    ∀ e, t = .cons (.rete (.start e)) .nil → ∀ st, runCompiled ρ N e st = closed (srcSem ρ N p st) := by
+  obtain ⟨th, rfl, hsem⟩ := compile_correct_partial ρ N q p t h hg
+  intro e he st
+  injection he with h1 _
+  injection h1 with h1
+  injection h1 with h1
+  subst h1
+  exact hsem st
 
 theorem C01_pass0 (ρ : Interp σ P) (N : Nat) (susp : Bool) (ss : Stmts) (st : σ) :
     denL ρ N susp (p0Stmts ss) st = denL ρ N susp ss st := p0Stmts_sem ρ N susp ss st
+
+/-! ### non-vacuity: a non-trivial body inside the guard, accepted by the compiler -/
+
+/-- `for Yield(1); C(1); A(2) { if C(3) { Yield(V(4)); continue } else { A(5) }; Yield(6) }; return nil` -/
+def demo : Stmts :=
+  .cons (.for_ (some (.yield ⟨true, 1⟩)) (some ⟨1, []⟩) (some (.act 2))
+    (.cons (.ifs none ⟨3, []⟩ (.cons (.simple (.yield ⟨false, 4⟩)) (.cons .cont .nil))
+        (.els (.cons (.simple (.act 5)) .nil)))
+     (.cons (.simple (.yield ⟨true, 6⟩)) .nil)))
+  (.cons .ret .nil)
+
+example : InFragment demo = true := by decide
+example : (compile currentQuirks demo).toBool = true := by decide
+
+/-! ### the full statement fails on the tree under verification (finding D6) -/
+
+/-- an interpretation over a step counter: conditions are true while fewer than two were evaluated -/
+def ρ0 : Interp Nat Unit where
+  act _ st := (none, st)
+  pact _ st := (some (), st)
+  bpanic _ st := ((), st)
+  def_ _ st := (none, st)
+  val n st := (.ok n, st)
+  cond _ st := (.ok (decide (st < 2)), st + 1)
+  tag _ st := (.ok 0, st)
+
+/-- the values delivered to a consumer that pulls at most `fuel` times -/
+def takeYields {α : Type} : Nat → MG.Res α Nat Unit → List Nat
+  | 0, _ => []
+  | fuel+1, .yield v st k => v :: takeYields fuel (k st)
+  | _, _ => []
+
+/-- `for C(1); ; Yield(2) { Yield(1); continue }` - continue skips the yielding post statement -/
+def cexD6 : Stmts :=
+  .cons (.for_ none (some ⟨1, []⟩) (some (.yield ⟨true, 2⟩))
+    (.cons (.simple (.yield ⟨true, 1⟩)) (.cons .cont .nil))) (.cons .ret .nil)
+
+/-- what the compiler model produces for `cexD6`: Combine(body, post) inside the loop thunk, so
+    `return seq.Continue()` in the body skips the second half -/
+def cexD6Out : SExp :=
+  .delay (.lam (.cons (.rete (.combine
+    (.delay (.lam (.cons (.rete (.loop (some ⟨1, []⟩) none (.delay (.lam
+      (.cons (.rete (.combine
+        (.delay (.lam (.cons (.rete (.bind ⟨true, 1⟩ (.lam (.cons (.rete (.sig .cont)) .nil)))) .nil)))
+        (.delay (.lam (.cons (.rete (.bind ⟨true, 2⟩ (.lam (.cons (.rete (.sig .normal)) .nil)))) .nil))))) .nil))))) .nil)))
+    (.delay (.lam (.cons (.rete (.sig .ret)) .nil))))) .nil))
+
+theorem cexD6_compiles : compile currentQuirks cexD6 = .ok (.cons (.rete (.start cexD6Out)) .nil) := rfl
+
+theorem C01_cex_continue_yielding_post : ¬ C01_full := by
+  intro h
+  have := h Nat Unit ρ0 5 cexD6 _ cexD6_compiles cexD6Out rfl 0
+  have h2 := congrArg (takeYields 6) this
+  revert h2
+  decide
 
 end GoCo.C01
